@@ -74,11 +74,6 @@ func (g *Gen) canInline(callee *ssa.Function) bool {
 	}
 	n := 0
 	for _, b := range callee.Blocks {
-		for _, p := range b.Preds {
-			if isBackEdge(p, b) {
-				return false
-			}
-		}
 		for _, in := range b.Instrs {
 			n++
 			switch x := in.(type) {
@@ -136,6 +131,12 @@ func (g *Gen) inlineCall(callee *ssa.Function, all []*Val, rt types.Type) *Val {
 		}
 		i++
 	}
+	// loops of the helper have no invariant of their own: they are cut with the facts
+	// the generator infers (counters, niter, prefix facts) and the caller's frame
+	child.loops = nil
+	if err := child.findLoops(); err != nil {
+		g.fail("inlining %s: %v", shortName(callee), err)
+	}
 	for _, b := range rpo(callee) {
 		if callee.Recover != nil && b == callee.Recover {
 			continue
@@ -149,6 +150,7 @@ func (g *Gen) inlineCall(callee *ssa.Function, all []*Val, rt types.Type) *Val {
 	g.nfresh = child.nfresh
 	g.abstracted, g.assumptions = child.abstracted, child.assumptions
 	g.lemmasUsed = child.lemmasUsed
+	g.inferred = child.inferred
 	g.declared = child.declared
 	g.curBlock = g.curBlock // unchanged
 	if len(rets) == 0 {
@@ -166,6 +168,20 @@ func (g *Gen) inlineCall(callee *ssa.Function, all []*Val, rt types.Type) *Val {
 	} else {
 		g.cur = g.mergeStates(g.curBlock, ins)
 	}
+	if len(child.loops) > 0 {
+		// the helper's loops were cut: the paths that go round a back edge end there.
+		// What follows the call is reached only through one of the return sites.
+		var gs []string
+		for _, r := range rets {
+			gs = append(gs, r.guard)
+		}
+		ng := g.freshConst("Rret", "Bool")
+		g.assert(eq(ng, and(g.curGuard, sx("or", append(gs, "false")...))))
+		g.curGuard = ng
+		if g.curBlock != nil {
+			g.reach[g.curBlock] = ng
+		}
+	}
 	// results: ite over the return sites
 	nres := 0
 	if tup, ok := rt.(*types.Tuple); ok {
@@ -179,13 +195,22 @@ func (g *Gen) inlineCall(callee *ssa.Function, all []*Val, rt types.Type) *Val {
 	merge := func(k int, ty types.Type) *Val {
 		v := rets[len(rets)-1].results[k]
 		out := &Val{T: v.T, Ty: ty, Fn: v.Fn, Binds: v.Binds, Boxed: v.Boxed}
+		differ := false
 		for j := len(rets) - 2; j >= 0; j-- {
-			w := rets[j].results[k]
-			if w.T != out.T {
-				out = &Val{T: ite(rets[j].guard, w.T, out.T), Ty: ty}
+			if rets[j].results[k].T != v.T {
+				differ = true
 			}
 		}
-		return out
+		if !differ || v.T == "" {
+			return out
+		}
+		// a named result, equal to the value returned at whichever return site was
+		// taken (a nested ite inside index arithmetic defeats quantifier matching)
+		r := g.freshConst("r."+shortName(callee), g.st.sortOf(ty))
+		for _, rt := range rets {
+			g.assert(imp(rt.guard, eq(r, rt.results[k].T)))
+		}
+		return &Val{T: r, Ty: ty}
 	}
 	if tup, ok := rt.(*types.Tuple); ok {
 		res := &Val{Ty: rt}
